@@ -1,1 +1,27 @@
 import Gossamer.Props.C37
+open Gossamer.C37
+#print axioms C37_roundtrip
+#print axioms C37_wrong_password_errors
+#print axioms C37_tamper_errors
+#print axioms C37_never_panics
+#print axioms C37_decrypt_ok_only_honest
+#print axioms C37_single_roundtrip
+#print axioms C37_single_wrong_password_errors
+#print axioms C37_single_tamper_errors
+#print axioms C37_single_never_different
+#print axioms C37_truncation_errors
+#print axioms C37_bitflip_errors
+#print axioms C37_nonce_change_errors
+#print axioms C37_nonce_swap_errors
+#print axioms C37_mutation_errors
+#print axioms C37_key_roundtrip
+#print axioms C37_key_never_different
+#print axioms C37_key_tamper_or_wrong_password_errors
+#print axioms C37_key_never_panics
+#print axioms C37_file_roundtrip
+#print axioms C37_file_tamper_errors_partial
+#print axioms C37_file_never_different_partial
+#print axioms C37_file_tamper_errors_counterexample
+#print axioms C37_file_never_panics
+#print axioms C37_ideal_instance
+#print axioms C37_never_panics_before_fix_counterexample
